@@ -7,6 +7,6 @@ UNITS = C01.UNITS
 LEVEL = C01.LEVEL; TECHNIQUE = C01.TECHNIQUE; FUNCTION_PATTERNS = C01.FUNCTION_PATTERNS; VALIDATE_VECTORS = 100
 def validation_queries(tier): return C01.validation_queries(tier)[:2]
 def queries(tier):   # the poisoning policy and the unaligned-map policy, every non-fault scenario (large frames are mapped and unmapped, slabs stay)
-    return C01.select(tier, lambda t: not t['lockset'] and not t['faults'] and t['pol'] in (2, 3, 4))
+    return C01.select(tier, lambda t: not t['lockset'] and not t['preempt'] and not t['faults'] and t['pol'] in (2, 3, 4))
 ASSUMPTIONS = C01.ASSUMPTIONS + ['poison model: a log of poison/unpoison/unpoison_expand calls decides each byte (newest covering call wins; mapped memory starts poisoned); the access hook of the flat memory model asserts that the translated pool code never touches a poisoned byte']
 OUTSIDE = C01.OUTSIDE
